@@ -220,6 +220,20 @@ CHECKS = {
         note="kill = process kill between file-system calls; single node; histories are seeded samples",
         technique="TLA+ reference trace spec + TLC validation of oplog decodes after restarts and crash images",
         design="DESIGN.md §5 C16"),
+    "C13": dict(
+        level="model_checking",
+        text="MC_Arbiter (TLC, exhaustive over arbiter status x queue lengths x notices held) generates every "
+             "(state, action) history of plain / stale writes on two keys (one name extending the other), "
+             "arbiter register / disconnect / re-register and resolve of the i-th outstanding notice; each "
+             "history and seeded longer ones run on the real node (the harness answers real notices, echoing "
+             "op id and version); TLC validates every step against the reference Trace_Arbiter (refused and "
+             "unchanged while no arbiter ever registered; otherwise value kept, exactly one new $conflicts_ "
+             "record, notice to every connected arbiter, FIFO queue per key; a new arbiter gets exactly the "
+             "unresolved conflicts; after the last resolution the key holds that value and is writable).",
+        note="single node only: on a cluster `resolve` never quiesces (finding F22), so replicas holding the "
+             "resolved value cannot be checked; values without spaces",
+        technique="TLA+ reference conflict-queue spec + TLC trace validation; TLC-generated histories",
+        design="DESIGN.md §5 C13"),
 }
 
 NOT_YET = "check not built yet (build in progress; see DESIGN.md §8 build order)"
